@@ -770,7 +770,27 @@ class Exec:
         raise Unsupported(msg)
 
     # ------------------------------------------------------------------ name resolution
+    def global_value(self, name, env):
+        """A module-level variable the function declares `global`: mutable state, not a constant.
+        Its value at entry is an unknown of the sort of its module-level literal."""
+        g = self.ctx.__dict__.setdefault("globals_now", {})
+        if name not in g:
+            init = self.mod_consts.get(name)
+            if isinstance(init, bool):
+                v = Z(self.fresh(f"global.{name}", z3.BoolSort()))
+            elif isinstance(init, int):
+                v = Z(self.fresh(f"global.{name}", z3.IntSort()))
+            elif isinstance(init, str):
+                v = Z(self.fresh(f"global.{name}", z3.StringSort()))
+            else:
+                v = Z(self.fresh(f"global.{name}", self.S.Py))
+            g[name] = v
+            self.ctx.__dict__.setdefault("globals_old", {})[name] = v
+        return g[name]
+
     def lookup(self, name, env):
+        if name in env.get("__globals__", ()) or name in self.contract.get("globals", []):
+            return self.global_value(name, env)
         if name in env:
             return env[name]
         if name in self.mod_consts:
@@ -1021,6 +1041,21 @@ class Exec:
 
     def slice_(self, v, lo, hi, line=None):
         S = self.S
+        if isinstance(v, Z) and (v.t.sort() == z3.StringSort() or (
+                v.t.sort() == S.Py and self.entails(self.P.is_PStr(v.t)))):
+            # s[lo:hi] of a string (non-negative constant bounds)
+            sv = v.t if v.t.sort() == z3.StringSort() else self.P.s(v.t)
+            n = z3.Length(sv)
+
+            def bound(x, default):
+                if x is None:
+                    return default
+                k = z3.simplify(self.to_int(x, line, "slice"))
+                if not (z3.is_int_value(k) and k.as_long() >= 0):
+                    raise Unsupported("string slice with a symbolic or negative bound")
+                return z3.If(k > n, n, k)
+            a, b_ = bound(lo, z3.IntVal(0)), bound(hi, n)
+            return Z(z3.SubString(sv, a, z3.If(b_ > a, b_ - a, 0)), origin="string slice")
         if isinstance(v, (Z, CList, Tup)):
             l = self.to_list(v, line)
             n = S.len_l(l)
@@ -1670,6 +1705,15 @@ class Exec:
 
     def assign(self, target, v, env, line):
         if isinstance(target, ast.Name):
+            if target.id in env.get("__globals__", ()):
+                self.global_value(target.id, env)
+                self.ctx.globals_now[target.id] = v
+                # a write to module state is a write to something that existed before the call
+                mods = self.contract.get("modifies", [])
+                if "*" not in mods and f"global.{target.id}" not in mods:
+                    self.oblige_trivial("frame", f"write:global {target.id}", False, line,
+                                        note=f"assignment to the module variable {target.id}")
+                return
             env[target.id] = v
             return
         if isinstance(target, (ast.Tuple, ast.List)):
